@@ -5,6 +5,7 @@ package main
 
 import (
 	"fmt"
+	"strings"
 
 	"golang.org/x/tools/go/ssa"
 )
@@ -300,11 +301,71 @@ type outcome struct {
 var noMergeAt = map[ssa.Instruction]bool{}
 var mapEpoch int
 
+// Results of merged calls are cached across paths: the same function on the same
+// (string / table-of-string) arguments under the same variable domains yields the same
+// merged value; it is handed out as a deep copy so that allocation freshness is kept.
+var mergeCache = map[string]value{}
+
+func mergeKey(fn *ssa.Function, args []value) (string, bool) {
+	var sb strings.Builder
+	sb.WriteString(fn.String())
+	for _, a := range args {
+		sb.WriteByte('|')
+		switch x := a.(type) {
+		case string:
+			sb.WriteString("s:" + x)
+		case int64:
+			fmt.Fprintf(&sb, "i:%d", x)
+		case bool:
+			fmt.Fprintf(&sb, "b:%v", x)
+		case *tab:
+			fmt.Fprintf(&sb, "t%d:", x.v.id)
+			d := rs.dom(x.v)
+			for i, l := range d {
+				if !l {
+					sb.WriteByte('-')
+					continue
+				}
+				switch y := x.vals[i].(type) {
+				case string:
+					sb.WriteString(y)
+				case int64:
+					fmt.Fprintf(&sb, "%d", y)
+				case bool:
+					fmt.Fprintf(&sb, "%v", y)
+				default:
+					return "", false
+				}
+				sb.WriteByte(0)
+			}
+		default:
+			return "", false
+		}
+	}
+	return sb.String(), true
+}
+
 func mergeCall(fn *ssa.Function, args []value, free []value) value {
 	site := rs.curInstr
 	if noMergeAt[site] {
 		return callBody(fn, args, free)
 	}
+	key, cacheable := mergeKey(fn, args)
+	if cacheable && !cfg.NoMemo {
+		if r, ok := mergeCache[key]; ok {
+			stats.mergeCacheHits++
+			return deepCopy(r, map[*value]*value{})
+		}
+	}
+	r := mergeCallUncached(fn, args, free)
+	if cacheable && !cfg.NoMemo && !noMergeAt[site] {
+		mergeCache[key] = deepCopy(r, map[*value]*value{})
+	}
+	return r
+}
+
+func mergeCallUncached(fn *ssa.Function, args []value, free []value) value {
+	site := rs.curInstr
 	outer := rs
 	pcBase := len(outer.pc)
 	sub := &wl{items: []item{{doms: snapshotDoms()}}}
